@@ -99,10 +99,15 @@ class P(Prop):
         kint = C.kname("Segment<%s>::integral" % ty)
         kev = C.kname("Segment<%s>::evaluate" % int_type(ty))
         if case["op"] == "pw_integral_all":
-            one = "run_pw_integral %s %s %s %s %s %s" % (ln, ex, kint, kev, C.zlistlist(case["segs"]), C.zlist(case["knot"]))
-            return "(%s ++ %s ++ %s)" % (one, one, one)
+            return "run_pw_integral %s %s %s %s %s %s" % (ln, ex, kint, kev, C.zlistlist(case["segs"]), C.zlist(case["knot"]))
         kind = C.kname("Segment<%s>::indefinite" % ty)
         return "run_pw_indefinite %s %s %s %s %s %s" % (ln, ex, kint, kind, kev, C.zlistlist(case["segs"]))
+
+    def compare(self, case, hres, mres):
+        # one model run stands for all three entry points (Piecewise::integral, integral_iter, integral_iter_ref)
+        if case["op"] == "pw_integral_all" and isinstance(hres.get("r"), list) and mres is not None:
+            mres = list(mres) * 3
+        return Prop.compare(self, case, hres, mres)
 
     def oracle(self, case, h):
         if h["r"] == "PANIC":
